@@ -135,6 +135,7 @@ def run(repo, rep, tier):
     r4 = rep.rule("R6.4", "children instantiated from a template are fresh per slot", floor=6)
     r5 = rep.rule("R6.5", "quantity names are written only on objects fresh out of ed()", floor=14)
 
+    rep.borrow(repo, "C07", {"R7.3": ("R6.7", "a += b leaves b untouched and keeps nothing borrowed from b (a later fill of a would change b)", 19)})
     # ---------------------------------------------------------------- R6.6
     distinct_slots(repo, rep, prims, models)
 
